@@ -708,12 +708,14 @@ func (h *vPool) reset(a map[string]string) {
 // ---- generator
 
 type vGen struct {
+	script   []func() string // scripted (but randomised) steps that run before the random walk resumes
 	rng      *rand.Rand
 	h        *vPool
 	nextCall int
 	keys     []string
 	profile  string
 	maxAddr  int
+	ums      int
 }
 
 func (g *vGen) cfgLine() string {
@@ -763,9 +765,256 @@ func (g *vGen) cfgLine() string {
 		cfg = []string{"nil", "empty"}[r.Intn(2)]
 	}
 	g.nextCall = 0
+	g.script = nil
+	if (g.profile == "affinity" || g.profile == "refresh") && r.Intn(2) == 0 {
+		uc, ums = 1+r.Intn(3), 1+r.Intn(2)
+		wm = 50
+		g.ums = ums
+		g.scenarioAffinityRefresh()
+	}
+	if g.profile == "fallback" && r.Intn(2) == 0 {
+		uc, ums, wm = 1+r.Intn(3), 1+r.Intn(2), 50
+		if min < 2 {
+			min = 2
+		}
+		if max < min {
+			max = min
+		}
+		g.ums = ums
+		g.scenarioFallbackRefresh()
+	}
 	g.maxAddr = 1
 	g.keys = []string{"k1", "k2", "k3", "k4"}[:1+r.Intn(4)]
 	return fmt.Sprintf("pool cfg min=%d max=%d wm=%d fb=%d rr=%d uc=%d ums=%d cfg=%s", min, max, wm, fb, rr, uc, ums, cfg)
+}
+
+// scenarioAffinityRefresh: bind several keys, make one keyed channel unresponsive so that it is
+// refreshed, complete the swap, then look every key up again (and unbind some).
+func (g *vGen) scenarioAffinityRefresh() {
+	r, h := g.rng, g.h
+	add := func(f func() string) { g.script = append(g.script, f) }
+	cur := func() int { return len(h.cc.pubs) - 1 }
+	now := func() int64 { return atomic.LoadInt64(&verifClock) }
+	call := func() int { g.nextCall++; return g.nextCall }
+	add(func() string { return "pool ccs addrs=1" })
+	for i := 0; i < 4; i++ {
+		sc := i
+		add(func() string {
+			if sc >= h.cc.nextSc {
+				return ""
+			}
+			return fmt.Sprintf("pool scs sc=%d st=READY", sc)
+		})
+	}
+	nkeys := 2 + r.Intn(4)
+	hold := []int{}
+	for i := 0; i < nkeys; i++ {
+		k := fmt.Sprintf("k%d", 1+i)
+		var id int
+		add(func() string {
+			if cur() < 0 {
+				return ""
+			}
+			id = call()
+			return fmt.Sprintf("pool pick call=%d picker=%d m=bind ctx=gcp dl=none req=/", id, cur())
+		})
+		if r.Intn(3) == 0 { // keep a filler call in flight so that the next BIND lands elsewhere
+			add(func() string {
+				if cur() < 0 {
+					return ""
+				}
+				f := call()
+				hold = append(hold, f)
+				return fmt.Sprintf("pool pick call=%d picker=%d m=plain ctx=gcp dl=none req=/", f, cur())
+			})
+		}
+		add(func() string {
+			if _, ok := h.calls[id]; !ok {
+				return ""
+			}
+			return fmt.Sprintf("pool done call=%d err=nil reply=%s/", id, k)
+		})
+	}
+	// make the channel of k1 unresponsive: enough client-deadline completions after the window
+	rounds := 1 + r.Intn(3)
+	for round := 0; round < rounds; round++ {
+		ids := []int{}
+		for j := 0; j < 3; j++ {
+			add(func() string {
+				if cur() < 0 {
+					return ""
+				}
+				id := call()
+				ids = append(ids, id)
+				return fmt.Sprintf("pool pick call=%d picker=%d m=bound ctx=gcp dl=%d req=k1/", id, cur(), now())
+			})
+		}
+		// around the exponential window ums*2^k and around other plausible (wrong) windows
+		ms := int64(g.ums) * 1000000
+		k := uint(round)
+		advs := []int64{ms<<k + 1, ms<<k + 1, ms << k, ms<<k - 1, ms*int64(k+1) + 1, ms*int64(k+1)*2 + 1, 3*(ms<<k) + 1}
+		adv := advs[r.Intn(len(advs))]
+		add(func() string { return fmt.Sprintf("pool adv ns=%d", adv) })
+		for j := 0; j < 3; j++ {
+			jj := j
+			add(func() string {
+				if jj >= len(ids) {
+					return ""
+				}
+				if _, ok := h.calls[ids[jj]]; !ok {
+					return ""
+				}
+				return fmt.Sprintf("pool done call=%d err=declient reply=/", ids[jj])
+			})
+		}
+		if r.Intn(6) == 0 {
+			// the old connection of the refreshing channel is shut down while the refresh is in flight
+			add(func() string {
+				for _, ref := range h.gb.refreshingScRefs {
+					return fmt.Sprintf("pool scs sc=%s st=%s", scID(ref.subConn), []string{"SHUTDOWN", "TF", "IDLE"}[r.Intn(3)])
+				}
+				return ""
+			})
+		}
+		if r.Intn(3) == 0 {
+			add(func() string { return fmt.Sprintf("pool ccs addrs=%d", 2+r.Intn(2)) })
+		}
+		add(func() string {
+			for sc := range h.gb.refreshingScRefs {
+				return fmt.Sprintf("pool scs sc=%d st=READY", sc.(*vSubConn).id)
+			}
+			return ""
+		})
+	}
+	for i := 0; i < nkeys; i++ {
+		k := fmt.Sprintf("k%d", 1+i)
+		m := "bound"
+		if r.Intn(4) == 0 {
+			m = "unbind"
+		}
+		var id int
+		add(func() string {
+			if cur() < 0 {
+				return ""
+			}
+			id = call()
+			return fmt.Sprintf("pool pick call=%d picker=%d m=%s ctx=gcp dl=none req=%s/", id, cur(), m, k)
+		})
+		add(func() string {
+			if _, ok := h.calls[id]; !ok {
+				return ""
+			}
+			return fmt.Sprintf("pool done call=%d err=%s reply=/", id, []string{"nil", "nil", "other"}[r.Intn(3)])
+		})
+	}
+}
+
+// scenarioFallbackRefresh: a bound key whose home channel is down uses a stand-in; the stand-in is
+// refreshed meanwhile; later the home channel recovers.
+func (g *vGen) scenarioFallbackRefresh() {
+	r, h := g.rng, g.h
+	add := func(f func() string) { g.script = append(g.script, f) }
+	cur := func() int { return len(h.cc.pubs) - 1 }
+	now := func() int64 { return atomic.LoadInt64(&verifClock) }
+	call := func() int { g.nextCall++; return g.nextCall }
+	add(func() string { return "pool ccs addrs=1" })
+	for i := 0; i < 4; i++ {
+		sc := i
+		add(func() string {
+			if sc >= h.cc.nextSc {
+				return ""
+			}
+			return fmt.Sprintf("pool scs sc=%d st=READY", sc)
+		})
+	}
+	var bindID int
+	add(func() string {
+		if cur() < 0 {
+			return ""
+		}
+		bindID = call()
+		return fmt.Sprintf("pool pick call=%d picker=%d m=bind ctx=gcp dl=none req=/", bindID, cur())
+	})
+	add(func() string {
+		if _, ok := h.calls[bindID]; !ok {
+			return ""
+		}
+		return fmt.Sprintf("pool done call=%d err=nil reply=k1/", bindID)
+	})
+	home := func() string {
+		if sc, ok := h.gb.affinityMap["k1"]; ok {
+			return scID(sc)
+		}
+		return ""
+	}
+	add(func() string {
+		if home() == "" {
+			return ""
+		}
+		return fmt.Sprintf("pool scs sc=%s st=%s", home(), []string{"TF", "CONNECTING", "IDLE"}[r.Intn(3)])
+	})
+	rounds := 1 + r.Intn(2)
+	for round := 0; round < rounds; round++ {
+		ids := []int{}
+		for j := 0; j < 3; j++ {
+			add(func() string {
+				if cur() < 0 {
+					return ""
+				}
+				id := call()
+				ids = append(ids, id)
+				return fmt.Sprintf("pool pick call=%d picker=%d m=bound ctx=gcp dl=%d req=k1/", id, cur(), now())
+			})
+		}
+		ms := int64(g.ums) * 1000000
+		add(func() string { return fmt.Sprintf("pool adv ns=%d", ms<<uint(round)+1) })
+		for j := 0; j < 3; j++ {
+			jj := j
+			add(func() string {
+				if jj >= len(ids) {
+					return ""
+				}
+				if _, ok := h.calls[ids[jj]]; !ok {
+					return ""
+				}
+				return fmt.Sprintf("pool done call=%d err=declient reply=/", ids[jj])
+			})
+		}
+		add(func() string {
+			for sc := range h.gb.refreshingScRefs {
+				return fmt.Sprintf("pool scs sc=%d st=READY", sc.(*vSubConn).id)
+			}
+			return ""
+		})
+		var id int
+		add(func() string {
+			if cur() < 0 {
+				return ""
+			}
+			id = call()
+			return fmt.Sprintf("pool pick call=%d picker=%d m=bound ctx=gcp dl=none req=k1/", id, cur())
+		})
+		add(func() string {
+			if _, ok := h.calls[id]; !ok {
+				return ""
+			}
+			return fmt.Sprintf("pool done call=%d err=nil reply=/", id)
+		})
+	}
+	if r.Intn(2) == 0 {
+		add(func() string {
+			if home() == "" {
+				return ""
+			}
+			return fmt.Sprintf("pool scs sc=%s st=READY", home())
+		})
+		add(func() string {
+			if cur() < 0 {
+				return ""
+			}
+			return fmt.Sprintf("pool pick call=%d picker=%d m=bound ctx=gcp dl=none req=k1/", call(), cur())
+		})
+	}
 }
 
 func (g *vGen) knownSc() int {
@@ -944,6 +1193,13 @@ func (g *vGen) scsLine() string {
 
 func (g *vGen) next(i int) string {
 	r, h := g.rng, g.h
+	for len(g.script) > 0 {
+		f := g.script[0]
+		g.script = g.script[1:]
+		if line := f(); line != "" {
+			return line
+		}
+	}
 	if i == 0 {
 		ver := 1
 		if r.Intn(15) == 0 {
